@@ -23,25 +23,25 @@ from .c07 import thicknesses, self_test
 TILT = {"none": (0.0, 0.0), "pos": (5.0, 3.0), "neg": (-5.0, -3.0)}
 
 
-def make_wave(kind, gpts, extent, tilt, rng):
+def make_wave(kind, gpts, extent, tilt, rng, energy=100e3):
     import abtem
     g = np.random.default_rng(rng.randrange(1 << 30))
     if kind == "plane":
-        return abtem.PlaneWave(energy=100e3, extent=extent, gpts=gpts, tilt=tilt).build(lazy=False)
+        return abtem.PlaneWave(energy=energy, extent=extent, gpts=gpts, tilt=tilt).build(lazy=False)
     if kind == "probe":
-        return abtem.Probe(energy=100e3, semiangle_cutoff=20, extent=extent, gpts=gpts, tilt=tilt).build(lazy=False)
+        return abtem.Probe(energy=energy, semiangle_cutoff=20, extent=extent, gpts=gpts, tilt=tilt).build(lazy=False)
     x = g.normal(size=gpts) + 1j * g.normal(size=gpts)
     if kind == "random_bandlimited":
         X = np.fft.fft2(x)
-        kx = np.fft.fftfreq(gpts[0], extent / gpts[0])
-        ky = np.fft.fftfreq(gpts[1], extent / gpts[1])
+        kx = np.fft.fftfreq(gpts[0], extent[0] / gpts[0])
+        ky = np.fft.fftfreq(gpts[1], extent[1] / gpts[1])
         k = np.sqrt(kx[:, None] ** 2 + ky[None, :] ** 2)
         kcut = min(np.abs(kx).max(), np.abs(ky).max()) * 0.55       # well inside the 2/3 antialias aperture (taper included)
         X[k > kcut] = 0
         x = np.fft.ifft2(X)
     x = (x / np.sqrt((np.abs(x) ** 2).sum())).astype(np.complex64)
     md = {"base_tilt_x": tilt[0], "base_tilt_y": tilt[1]}
-    return abtem.Waves(x, energy=100e3, extent=extent, metadata=md)
+    return abtem.Waves(x, energy=energy, extent=extent, metadata=md)
 
 
 def make_potential(kind, n, unequal, gpts, extent, rng):
@@ -58,18 +58,18 @@ def make_potential(kind, n, unequal, gpts, extent, rng):
         from ase import Atoms
         pos, sym, z = [], [], 0.0
         for i, t in enumerate(th):
-            pos.append(((0.9 + 0.7 * i) % extent, (1.3 + 1.1 * i) % extent, z + 0.5 * t))
+            pos.append(((0.9 + 0.7 * i) % extent[0], (1.3 + 1.1 * i) % extent[1], z + 0.5 * t))
             sym.append(["Au", "Si", "C"][i % 3])
             z += t
-        atoms = Atoms(sym, positions=pos, cell=(extent, extent, z), pbc=True)
+        atoms = Atoms(sym, positions=pos, cell=(extent[0], extent[1], z), pbc=True)
         return abtem.Potential(atoms, gpts=gpts, slice_thickness=tuple(th), projection="infinite")
-    return abtem.PotentialArray(a, slice_thickness=tuple(th), extent=(extent, extent))
+    return abtem.PotentialArray(a, slice_thickness=tuple(th), extent=extent)
 
 
 def run_case(c, rng, double=False):
     import abtem
     from abtem.multislice import FourierMultislice, FresnelPropagator
-    gpts, extent = (24, 20), 6.0
+    gpts, extent = (24, 20), ((6.0, 6.0) if (c["slices"] + c["order"]) % 2 else (6.0, 8.75))     # square and rectangular cells
     ev = {"e": "Result", "kind": "c04", "raised": False, "vacuum": c["pot"] == "vacuum", "band_limited": bool(c["conserved"] or c["reversible"]),
           "conserved_ppb": 0, "reverse_ppb": 0, "double": double}
     sink = Sink()
@@ -84,6 +84,11 @@ def run_case(c, rng, double=False):
             ev["conserved_ppb"] = ppb(abs(i1 - i0) / i0)
             if c["reversible"]:
                 p = FresnelPropagator()
+                if c["unequal"]:
+                    # the same propagator object used first for a wave of another energy on the same grid (no result may
+                    # depend on what the object propagated before)
+                    other = make_wave(c["wave"], gpts, extent, TILT[c["tilt"]], rng, energy=60e3)
+                    p.propagate(other, thickness=3.7, order=c["order"])
                 fwd = p.propagate(wave.copy(), thickness=3.7, order=c["order"])
                 back = FresnelPropagator().propagate(fwd, thickness=-3.7, order=c["order"])
                 ev["reverse_ppb"] = ppb(relerr(arr(back), arr(wave)))
